@@ -37,7 +37,7 @@ COMPONENTS = {
 ASSUMPTIONS = {'C10': ['overlapping calls of the same function that both rely on the same omitted default dictionary are out of scope (DESIGN 3.5): '
                        'a call that omits info / cache is not pre-empted by other clients (perturbations still fire inside it)',
                        'calls with seed=None, rand_custom with its default sampler and long-lived ANOVA objects are excluded (documented randomness / object state)',
-                       'not covered: dependence on np.seterr, warning filters, BLAS thread count, OS entropy']}
+                       'not covered: dependence of results on the caller\'s own np.seterr settings, on warning filters, on the BLAS thread count, on OS entropy (a call that CHANGES the error state is reported)']}
 EXPECTED_PROBES = {'C10': ['context_switch_inside_call', 'draw_yield_points', 'callback_yield_points', 'default_dict_calls', 'generator_object_calls',
                            'repeated_calls']}
 BUDGET = {'C10': {'quick': {'n': 5000, 'max_s': 150, 'chunk': 20}, 'thorough': {'n': 100000, 'max_s': 3000, 'chunk': 25}}}
